@@ -634,10 +634,10 @@ def run(ctx):
 
     # 1. Design |= Reference, exhaustive in the bounded space
     if quick:
-        confs = [dict(maxsys=2, maxadded=1, maxdepth=2, sysidx=(1, 3, 4, 5, 6, 7), addedidx=(1, 4, 9))]
+        confs = [dict(maxsys=2, maxadded=1, maxdepth=2, sysidx=(1, 3, 4, 5, 6, 7), addedidx=(1, 4, 7))]
     else:
-        confs = [dict(maxsys=3, maxadded=1, maxdepth=1, sysidx=(1, 3, 4, 5, 6, 7), addedidx=(1, 3, 4, 6, 9)),
-                 dict(maxsys=2, maxadded=2, maxdepth=4, sysidx=(1, 3, 4, 7, 10, 13, 14), addedidx=(2, 4, 10))]
+        confs = [dict(maxsys=3, maxadded=1, maxdepth=1, sysidx=(1, 3, 4, 5, 6, 7), addedidx=(1, 3, 4, 6, 7)),
+                 dict(maxsys=2, maxadded=2, maxdepth=4, sysidx=(1, 3, 4, 7, 10, 13, 14), addedidx=(2, 7, 10))]
     for n, c in enumerate(confs):
         cfg = write_cfg(ctx, 'mc%d.cfg' % n, invs=INVS, **c)
         res = run_tlc('ProjectPath', cfg, workers=16, timeout=3000)
@@ -692,10 +692,10 @@ def run(ctx):
 
     # 3. emitted slice -> replay (spec -> code)
     if quick:
-        mod, ec = 79, dict(maxsys=2, maxadded=1, maxdepth=2, sysidx=(1, 4, 5, 6, 7), addedidx=(1, 4))
+        mod, ec = 79, dict(maxsys=2, maxadded=1, maxdepth=2, sysidx=(1, 4, 5, 6, 7), addedidx=(1, 7))
     else:
-        mod, ec = 61, dict(maxsys=2, maxadded=1, maxdepth=4, sysidx=(1, 3, 4, 5, 6, 7, 10, 12, 13),
-                           addedidx=(1, 4, 9, 12))
+        mod, ec = 127, dict(maxsys=2, maxadded=1, maxdepth=4, sysidx=(1, 3, 4, 5, 6, 7, 10, 12, 13),
+                           addedidx=(1, 4, 7, 12))
     cfg = write_cfg(ctx, 'emit.cfg', mod=mod, rem=ctx.seed % mod, constraint='Emit', **ec)
     res = run_tlc('ProjectPath', cfg, workers=1, timeout=3000)
     ctx.add_tlc(res, 'case emission slice %d mod %d of %s' % (ctx.seed % mod, mod, ec))
@@ -708,7 +708,7 @@ def run(ctx):
     n_tlc = len(items)
 
     # 4. random scenarios beyond the bounds (code -> spec)
-    for _ in range(200 if quick else 4000):
+    for _ in range(200 if quick else 2000):
         add_item(gen_case(ctx.rng), 'random', pairs=3, triples=True, env_set=True)
 
     ctx.log('replaying %d cases on the real code' % len(items))
@@ -716,7 +716,7 @@ def run(ctx):
     jutil.check_worker_errors(results)
 
     # 5. discovery chains
-    dmod = 11 if quick else 7
+    dmod = 11 if quick else 29
     cfg = write_cfg(ctx, 'disc_emit.cfg', maxchain=3 if quick else 4, mod=dmod, rem=ctx.seed % dmod,
                     constraint='EmitDisc', disc=True)
     res = run_tlc('ProjectPath', cfg, workers=1, timeout=3000)
